@@ -4,7 +4,7 @@
    cpu_times_percent, Process.cpu_percent), specification: C07/Spec.v (kernel printer
    k_stat of /proc/stat, tick-level formulas).  Seconds and percentages are exact
    rationals; float rounding is outside the model (compared within one rounding step). *)
-From PV Require Import C07.SpecLife C07.ProofsParse C07.ProofsArith C07.ProofsState C07.ProofsScript C07.ProofsLife C07.SpecBlock C07.ProofsBlock C07.ProofsNested.
+From PV Require Import C07.SpecLife C07.ProofsParse C07.ProofsArith C07.ProofsState C07.ProofsScript C07.ProofsLife C07.SpecBlock C07.ProofsBlock C07.ProofsNested C07.ProofsSub Gen.C07_Tables.
 Local Open Scope Q_scope.
 
 (* ---- cpu_times(): every /proc/stat the kernel can print (any CPUs, nf >= 7 decimal counters
@@ -349,3 +349,48 @@ Theorem C07_script_with_nested_calls : forall clk nf ids imp l,
           (spec_brun clk imp [] l).
 Proof. exact nested_script. Qed.
 Print Assumptions C07_script_with_nested_calls.
+
+(* ---- USER SUBCLASSES of psutil.Process (object protocols).  pb_run_sub ovr ov: the block machine
+   for a subclass; ovr = it overrides the public cpu_times(), ov = what its cpu_times() makes of the
+   library's figures. *)
+
+(* source-level fact, re-checked on every run against the code under test (table generated by
+   props/_c07_tables.py from the ast of psutil/__init__.py): everything Process.cpu_percent reaches
+   through `self` is private state or the platform layer -- never a public, overridable name *)
+Theorem C07_cpu_percent_samples_are_private :
+  forallb (fun m => negb (String.eqb (fst m) "cpu_percent"%string)
+                    || forallb (fun u => match snd u with KPublic => false | _ => true end) (snd m)) c07_self_uses = true
+  /\ existsb (fun m => String.eqb (fst m) "cpu_percent"%string
+                       && existsb (fun u => String.eqb (fst (fst u)) "_proc.cpu_times"%string && snd (fst u)) (snd m)) c07_self_uses = true.
+Proof. split; vm_compute; reflexivity. Qed.
+Print Assumptions C07_cpu_percent_samples_are_private.
+
+(* ... and the model says the same: the answers of cpu_percent() are the same whatever the
+   subclass's cpu_times() returns (children-inclusive figures, a dict, another tuple) *)
+Theorem C07_percent_ignores_public_cpu_times : forall ovr ov1 ov2 clk l st,
+  pcts (pb_run_sub ovr ov1 clk st l) = pcts (pb_run_sub ovr ov2 clk st l).
+Proof. exact percent_ignores_public_cpu_times. Qed.
+Print Assumptions C07_percent_ignores_public_cpu_times.
+
+(* a subclass that does not override cpu_times() is Process, inside and outside blocks *)
+Theorem C07_subclass_without_override_is_process : forall clk l st,
+  pb_run_sub false (fun t => t) clk st l = pb_run clk st l.
+Proof. exact sub_without_override_is_process. Qed.
+Print Assumptions C07_subclass_without_override_is_process.
+
+(* an overriding subclass gets the cpu_percent() answers of Process as long as no block is entered *)
+Theorem C07_overriding_subclass_outside_blocks : forall ov clk l st,
+  no_blocks l = true -> pcts (pb_run_sub true ov clk st l) = pcts (pb_run clk st l).
+Proof. exact overriding_sub_outside_blocks. Qed.
+Print Assumptions C07_overriding_subclass_outside_blocks.
+
+(* KNOWN DEFECT (finding subclass-cpu_times-override-breaks-oneshot): oneshot() activates its caches
+   through the public names -- the table shows it -- so entering a block with an overriding
+   subclass raises AttributeError *)
+Theorem C07_oneshot_dispatches_through_public_names_refuted :
+  existsb (fun m => String.eqb (fst m) "oneshot"%string
+                    && existsb (fun u => String.eqb (fst (fst u)) "cpu_times.cache_activate"%string
+                                         && match snd u with KPublic => true | _ => false end) (snd m)) c07_self_uses = true
+  /\ exists clk l ov, pb_run_sub true ov clk pb_init l = [Exc AttributeError] /\ spec_pb_run clk g_init l = [].
+Proof. split; [vm_compute; reflexivity|exact override_breaks_block_entry_refuted]. Qed.
+Print Assumptions C07_oneshot_dispatches_through_public_names_refuted.
